@@ -42,7 +42,7 @@ SHAPES = [
 
 def plan(tier, seed):
     n = 16
-    per = 2000 if tier == "quick" else 15000
+    per = 6000 if tier == "quick" else 40000
     return [{"name": "s%02d" % i, "shard": i, "cases": per, "timeout": 7000} for i in range(n)]
 
 
@@ -151,7 +151,7 @@ def check_case(c, col, K, sample=False):
             nbad += 1
             col.violation("trio-pmf-differs-from-gamete-model", "P(progeny %s)=%.12g but brute-force model gives %.12g" % (g, p, w), {"case": c, "progeny": list(g)})
         # validity (defined for edges without error)
-        if zero_err and c["tau_p"] > 0 and c["tau_q"] > 0:
+        if zero_err:   # clonal edges (tau 0 on one side) included: the validity test is then decided by the other parent alone
             ga = np.array(g, dtype=np.int16)
             if c["known_p"] and c["known_q"]:
                 v = bool(K["trio_valid"](ga, np.array(c["par_p"], dtype=np.int16), np.array(c["par_q"], dtype=np.int16),
@@ -163,6 +163,8 @@ def check_case(c, col, K, sample=False):
             else:
                 v = True
             col.count("validity_checked")
+            if c["tau_p"] == 0 or c["tau_q"] == 0:
+                col.count("validity_checked_clonal_edge")
             if not v:
                 col.count("invalid_trios_seen")
             if v != (p > 0):
